@@ -622,6 +622,10 @@ func CheckStep(st Step) []Obs {
 			continue
 		}
 		if e, ok := expAdded[id]; ok {
+			if e.NextRunAt != r1.NextRunAt {
+				add("C05", "schedule_not_stored", fmt.Sprintf("%s: message %s was enqueued with next_run_at %d, the store holds %d (it would be offered at another instant than scheduled)", op.Kind, id, e.NextRunAt, r1.NextRunAt),
+					map[string]string{"op": string(op.Kind)}, id)
+			}
 			if !vlib.RowEqual(e, r1) {
 				add("C02", "stored_differs", fmt.Sprintf("stored message differs from the enqueued one: %s vs expected %s (identity equal: %v)", rowBrief(r1), rowBrief(e), vlib.SameIdentity(e, r1)), nil, id)
 			}
